@@ -130,14 +130,46 @@ Theorem C10_equal_authority_fields_no_ip : forall a b, no_ip a = true -> auth_no
 Proof. exact equal_authority_fields_no_ip. Qed.
 Print Assumptions C10_equal_authority_fields_no_ip.
 
-(* domain-root mode: the path of the reference is absolute; it is the source's, with "." in front when
-   it begins with an empty segment followed by another (uriFixAmbiguity) *)
+(* domain-root mode: the path of the reference is absolute; it is the source's, without segments when
+   the source's is the single empty segment ("/" is the absolute path without segments:
+   uriFixEmptyTrailSegment), and with "." in front when it begins with an empty segment followed by
+   another (uriFixAmbiguity) *)
 Theorem C10_domain_root_absolute : forall src base, scheme src <> None -> scheme base <> None ->
   range_eqb (scheme src) (scheme base) = true -> equals_authority src base = true ->
   let r := snd (remove_base true src base) in
-  absolutePath r = true /\ pathSegs r = fixamb_p false true (pathSegs src).
+  absolutePath r = true /\ pathSegs r = fixamb_p false true (fixtrail_p false (pathSegs src)).
 Proof. exact rb_domain_root. Qed.
 Print Assumptions C10_domain_root_absolute.
+
+(* the same list, case by case *)
+Theorem C10_domain_root_path : forall src base, scheme src <> None -> scheme base <> None ->
+  range_eqb (scheme src) (scheme base) = true -> equals_authority src base = true ->
+  pathSegs (snd (remove_base true src base))
+  = match pathSegs src with [[]] => [] | _ => fixamb_p false true (pathSegs src) end.
+Proof.
+  intros src base Hs Hb He Ea. rewrite (proj2 (rb_domain_root src base Hs Hb He Ea)). apply fixamb_fixtrail_abs.
+Qed.
+Print Assumptions C10_domain_root_path.
+
+(* the reference is never host-less with the single empty segment as its path, unless it is a copy
+   (other scheme or other authority) of a source of that shape *)
+Theorem C10_reference_no_lone_empty : forall m src base, lone_empty_hostless src = false ->
+  lone_empty_hostless (snd (remove_base m src base)) = false.
+Proof. exact remove_base_no_lone_empty. Qed.
+Print Assumptions C10_reference_no_lone_empty.
+
+Theorem C10_reference_same_authority_no_lone_empty : forall m src base,
+  range_eqb (scheme src) (scheme base) = true -> equals_authority src base = true ->
+  lone_empty_hostless (snd (remove_base m src base)) = false.
+Proof. exact remove_base_same_authority_no_lone_empty. Qed.
+Print Assumptions C10_reference_same_authority_no_lone_empty.
+
+Theorem C10_reference_lone_empty_iff : forall m src base,
+  lone_empty_hostless (snd (remove_base m src base)) = true <->
+  scheme src <> None /\ scheme base <> None /\ lone_empty_hostless src = true
+  /\ (range_eqb (scheme src) (scheme base) = false \/ equals_authority src base = false).
+Proof. exact remove_base_lone_empty_iff. Qed.
+Print Assumptions C10_reference_lone_empty_iff.
 
 (* the other mode: the reference is a rootless path, one ".." for every segment left of the base but
    the last, then the segments left of the source (guarded by "." when the path would begin with an
